@@ -230,30 +230,47 @@ Qed.
 Lemma orb_false_mem : forall s o, mem o (rd s) || mem o (wr s) = false -> ~ In o (rd s) /\ ~ In o (wr s).
 Proof. intros s o H. apply orb_false_iff in H. destruct H. split; apply mem_false; assumption. Qed.
 
+(* the branch of _updateRegistration taken when the descriptor has no role left *)
+Lemma update_reg_zero : forall k s o s', mem o (rd s) || mem o (wr s) = false -> update_reg k s o = Some s' ->
+  fds s' = fds s /\ holder s' = holder s /\ born s' = born s /\ rd s' = rd s /\ wr s' = wr s /\
+  tg s' = upd (tg s) o None /\
+  kreg s' = match fds s o with Some f => upd (kreg s) f None | None => kreg s end /\
+  (forall j, pmap s' j = pmap s j \/ (pmap s' j = None /\ (fds s o = Some j \/ pmap s j = Some o))).
+Proof.
+  intros k s o s' Em H. destruct (orb_false_mem _ _ Em) as [Hr Hw].
+  unfold update_reg, unregister in H.
+  destruct (fds s o) as [f|] eqn:Ef; simpl in H; rewrite Em in H; simpl in H; rewrite Ef in H.
+  - destruct k; inversion H; subst; clear H; simpl; rewrite !remove1_notin by assumption;
+      repeat split; try reflexivity; intros j.
+    + unfold drop_obj. destruct (pmap s j) as [o'|] eqn:Ep; [|left; reflexivity].
+      destruct (Nat.eqb_spec o' o); [right; subst; auto | left; reflexivity].
+    + unfold upd. destruct (Nat.eqb_spec j f); [right; split; [reflexivity | left; subst; reflexivity] | left; reflexivity].
+    + unfold drop_obj. destruct (pmap s j) as [o'|] eqn:Ep; [|left; reflexivity].
+      destruct (Nat.eqb_spec o' o); [right; subst; auto | left; reflexivity].
+  - destruct k; inversion H; subst; clear H; simpl; rewrite !remove1_notin by assumption;
+      repeat split; try reflexivity; intros j.
+    + unfold drop_obj. destruct (pmap s j) as [o'|] eqn:Ep; [|left; reflexivity].
+      destruct (Nat.eqb_spec o' o); [right; subst; auto | left; reflexivity].
+    + left; reflexivity.
+    + unfold drop_obj. destruct (pmap s j) as [o'|] eqn:Ep; [|left; reflexivity].
+      destruct (Nat.eqb_spec o' o); [right; subst; auto | left; reflexivity].
+Qed.
+
 Lemma update_reg_shape : forall k s o s', update_reg k s o = Some s' ->
   fds s' = fds s /\ holder s' = holder s /\ born s' = born s /\ rd s' = rd s /\ wr s' = wr s /\
   (registered s o -> tg s' = tg s) /\
   (~ registered s o -> forall o', tg s' o' = if Nat.eqb o' o then None else tg s o').
 Proof.
-  intros k s o s' H. unfold update_reg, unregister in H.
-  destruct (fds s o) as [f|] eqn:Ef; simpl in H.
-  - destruct (mem o (rd s) || mem o (wr s)) eqn:Em.
-    + rewrite Ef in H. inversion H; subst; clear H. simpl. repeat split; try reflexivity.
-      intros Hn. exfalso. apply Hn. apply registered_mask. exact Em.
-    + destruct (orb_false_mem _ _ Em) as [Hr Hw].
-      assert (Hs : s' = b_discard (set_kreg s (upd (kreg s) f None)) o \/
-                   s' = set_pmap (b_discard (set_kreg s (upd (kreg s) f None)) o) (upd (pmap s) f None)).
-      { simpl in H. rewrite Ef in H. destruct k; inversion H; auto. }
-      clear H. rename Hs into H.
-      destruct H as [H|H]; subst s'; simpl; rewrite !remove1_notin by assumption;
-        repeat split; try reflexivity; try (intros [Hx|Hx]; contradiction).
-  - destruct (mem o (rd s) || mem o (wr s)) eqn:Em.
-    + rewrite Ef in H. discriminate.
-    + destruct (orb_false_mem _ _ Em) as [Hr Hw].
-      assert (s' = b_discard s o) as ->.
-      { simpl in H. rewrite Ef in H. destruct k; inversion H; reflexivity. }
-      simpl. rewrite !remove1_notin by assumption.
-      repeat split; try reflexivity; try (intros [Hx|Hx]; contradiction).
+  intros k s o s' H.
+  destruct (mem o (rd s) || mem o (wr s)) eqn:Em.
+  - unfold update_reg, unregister in H.
+    destruct (fds s o) as [f|] eqn:Ef; simpl in H; rewrite Em in H; simpl in H; rewrite Ef in H; [|discriminate].
+    inversion H; subst; clear H. simpl. repeat split; try reflexivity.
+    intros Hn. exfalso. apply Hn. apply registered_mask. exact Em.
+  - destruct (update_reg_zero _ _ _ _ Em H) as (A & B & C & D & E & F & _).
+    repeat split; try assumption.
+    + intros Hr. apply registered_mask in Hr. unfold mask in Hr. simpl in Hr. congruence.
+    + intros _ o'. rewrite F. unfold upd. reflexivity.
 Qed.
 
 Lemma update_reg_tables : forall k s o s', update_reg k s o = Some s' ->
@@ -262,30 +279,30 @@ Lemma update_reg_tables : forall k s o s', update_reg k s o = Some s' ->
       (registered s o -> (forall j, kreg s' j = upd (kreg s) f (Some (mask s o)) j) /\
                          (forall j, pmap s' j = upd (pmap s) f (Some o) j)) /\
       (~ registered s o -> (forall j, kreg s' j = upd (kreg s) f None j) /\
-                           (forall j, pmap s' j = pmap s j \/ (j = f /\ pmap s' j = None)))
-  | None => ~ registered s o /\ kreg s' = kreg s /\ pmap s' = pmap s
+                           (forall j, pmap s' j = pmap s j \/ (pmap s' j = None /\ (j = f \/ pmap s j = Some o))))
+  | None => ~ registered s o /\ kreg s' = kreg s /\
+            (forall j, pmap s' j = pmap s j \/ (pmap s' j = None /\ pmap s j = Some o))
   end.
 Proof.
-  intros k s o s' H. unfold update_reg, unregister in H.
-  destruct (fds s o) as [f|] eqn:Ef; simpl in H.
-  - destruct (mem o (rd s) || mem o (wr s)) eqn:Em.
-    + rewrite Ef in H. inversion H; subst; clear H. simpl. split.
-      * intros _. split; intros j; unfold upd, mask; destruct (Nat.eqb j f); reflexivity.
-      * intros Hn. exfalso. apply Hn. apply registered_mask. exact Em.
-    + assert (Hs : s' = b_discard (set_kreg s (upd (kreg s) f None)) o \/
-                   s' = set_pmap (b_discard (set_kreg s (upd (kreg s) f None)) o) (upd (pmap s) f None)).
-      { simpl in H. rewrite Ef in H. destruct k; inversion H; auto. }
-      clear H. split.
-      * intros Hr. apply registered_mask in Hr. unfold mask in Hr. simpl in Hr. congruence.
-      * intros _. destruct Hs as [H|H]; subst s'; simpl; split; intros j; try reflexivity.
-        -- left. reflexivity.
-        -- unfold upd. destruct (Nat.eqb_spec j f); [right; split; [assumption|reflexivity] | left; reflexivity].
-  - destruct (mem o (rd s) || mem o (wr s)) eqn:Em.
-    + rewrite Ef in H. discriminate.
-    + assert (s' = b_discard s o) as ->.
-      { simpl in H. rewrite Ef in H. destruct k; inversion H; reflexivity. }
-      simpl. split; [|split; reflexivity].
-      intros Hr. apply registered_mask in Hr. unfold mask in Hr. simpl in Hr. congruence.
+  intros k s o s' H.
+  destruct (mem o (rd s) || mem o (wr s)) eqn:Em.
+  - assert (Hr : registered s o) by (apply registered_mask; exact Em).
+    unfold update_reg, unregister in H.
+    destruct (fds s o) as [f|] eqn:Ef; simpl in H; rewrite Em in H; simpl in H; rewrite Ef in H; [|discriminate].
+    inversion H; subst; clear H. simpl. split.
+    + intros _. split; intros j; unfold upd, mask; destruct (Nat.eqb j f); reflexivity.
+    + intros Hn. contradiction.
+  - assert (Hn : ~ registered s o).
+    { intro Hr. apply registered_mask in Hr. unfold mask in Hr. simpl in Hr. congruence. }
+    destruct (update_reg_zero _ _ _ _ Em H) as (_ & _ & _ & _ & _ & _ & K & P).
+    destruct (fds s o) as [f|] eqn:Ef.
+    + split; [intros Hr; contradiction|]. intros _. split; [intros j; rewrite K; reflexivity|].
+      intros j. destruct (P j) as [E|[E [E2|E2]]]; [left; exact E | right | right].
+      * split; [exact E | left; congruence].
+      * split; [exact E | right; exact E2].
+    + split; [exact Hn|]. split.
+      * exact K.
+      * intros j. destruct (P j) as [E|[E [E2|E2]]]; [left; exact E | discriminate | right; auto].
 Qed.
 
 Lemma update_reg_MInv : forall k s o s',
@@ -322,7 +339,7 @@ Proof.
         -- assert (o' <> o) by (intro; subst; congruence).
            eapply Xe; eassumption.
     + destruct (HtB Hr) as [Hk Hp]. split.
-      * intros f' o' Hpm. rewrite Hbn. destruct (Hp f') as [Hq|[_ Hq]]; [|congruence].
+      * intros f' o' Hpm. rewrite Hbn. destruct (Hp f') as [Hq|[Hq _]]; [|congruence].
         rewrite Hq in Hpm. eapply Xb. exact Hpm.
       * intros o' f' Hfd Hrg. rewrite Hf in Hfd. apply Hreg in Hrg. rewrite Hmask.
         assert (o' <> o) by (intro; subst; contradiction).
@@ -330,17 +347,21 @@ Proof.
         { intro; subst. apply Hinj in Hfd. apply Hinj in Ef. congruence. }
         destruct (Xm o' f' H0 Hfd Hrg) as [X1 X2].
         rewrite Hk, upd_other by assumption. split; [|exact X2].
-        destruct (Hp f') as [Hq|[Hq _]]; [rewrite Hq; exact X1 | contradiction].
+        destruct (Hp f') as [Hq|[Hq [Hq2|Hq2]]]; [rewrite Hq; exact X1 | contradiction | congruence].
       * intros f' o' m Hpm Hfd Hkr. rewrite Hf in Hfd. rewrite Hk in Hkr. rewrite Hmask, Hreg.
         unfold upd in Hkr. destruct (Nat.eqb_spec f' f); [discriminate|].
-        destruct (Hp f') as [Hq|[Hq _]]; [|contradiction]. rewrite Hq in Hpm.
+        destruct (Hp f') as [Hq|[Hq _]]; [|congruence]. rewrite Hq in Hpm.
         assert (o' <> o) by (intro; subst; congruence).
         eapply Xe; eassumption.
   - destruct Ht as (Hr & Hk & Hp). split.
-    + intros f' o' Hpm. rewrite Hbn. rewrite Hp in Hpm. eapply Xb. exact Hpm.
-    + intros o' f' Hfd Hrg. rewrite Hf in Hfd. apply Hreg in Hrg. rewrite Hmask, Hk, Hp.
-      apply Xm; try assumption. intro; subst; contradiction.
-    + intros f' o' m Hpm Hfd Hkr. rewrite Hf in Hfd. rewrite Hp in Hpm. rewrite Hk in Hkr. rewrite Hmask, Hreg.
+    + intros f' o' Hpm. rewrite Hbn. destruct (Hp f') as [Hq|[Hq _]]; [|congruence].
+      rewrite Hq in Hpm. eapply Xb. exact Hpm.
+    + intros o' f' Hfd Hrg. rewrite Hf in Hfd. apply Hreg in Hrg. rewrite Hmask, Hk.
+      assert (o' <> o) by (intro; subst; contradiction).
+      destruct (Xm o' f' H0 Hfd Hrg) as [X1 X2]. split; [|exact X2].
+      destruct (Hp f') as [Hq|[Hq Hq2]]; [rewrite Hq; exact X1 | congruence].
+    + intros f' o' m Hpm Hfd Hkr. rewrite Hf in Hfd. rewrite Hk in Hkr. rewrite Hmask, Hreg.
+      destruct (Hp f') as [Hq|[Hq _]]; [|congruence]. rewrite Hq in Hpm.
       eapply Xe; try eassumption. intro; subst; congruence.
 Qed.
 
@@ -359,8 +380,11 @@ Proof.
     * assert (Hr : ~ registered s o) by (intro Hr; apply registered_mask in Hr; congruence).
       destruct (HtB Hr) as [Hkk Hp]. rewrite Hkk in Hk. unfold upd in Hk.
       destruct (Nat.eqb_spec f fo); [discriminate|].
-      destruct (Hp f) as [Hq|[Hq _]]; [|contradiction]. rewrite Hq. eapply He. exact Hk.
-  + destruct Ht as (_ & Hkk & Hp). rewrite Hkk in Hk. rewrite Hp. eapply He. exact Hk.
+      destruct (He f m Hk) as (o' & A & B).
+      destruct (Hp f) as [Hq|[Hq [Hq2|Hq2]]]; [rewrite Hq; eauto | contradiction | exfalso; congruence].
+  + destruct Ht as (_ & Hkk & Hp). rewrite Hkk in Hk.
+    destruct (He f m Hk) as (o' & A & B).
+    destruct (Hp f) as [Hq|[Hq Hq2]]; [rewrite Hq; eauto | exfalso; congruence].
 Qed.
 
 (* ------------------------------------------------------------------ WInv through an API call *)
@@ -1256,4 +1280,577 @@ Proof.
   intros s f m Hre Hk. destruct (reach_Inv _ _ Hre) as (HW & HM & HE).
   destruct (HE eq_refl f m Hk) as (o & Hp & Hf). destruct (HM ltac:(discriminate)) as [_ _ Me].
   destruct (Me f o m Hp Hf Hk) as [A B]. exists o. auto.
+Qed.
+
+(* ================================================================== agreement along whole histories *)
+(* how the descriptor table evolves: the same for every poller *)
+Definition world_after (x : op) (s s' : state) : Prop :=
+  match x with
+  | Open o f => fds s' = upd (fds s) o (Some f) /\ holder s' = upd (holder s) f (Some o) /\ born s' = upd (born s) o (Some f)
+  | Close o => exists f, fds s o = Some f /\ fds s' = upd (fds s) o None /\ holder s' = upd (holder s) f None /\ born s' = born s
+  | _ => fds s' = fds s /\ holder s' = holder s /\ born s' = born s
+  end.
+
+Opaque process.
+Lemma processes_world : forall k l s s' e, processes k s l = (s', e) ->
+  fds s' = fds s /\ holder s' = holder s /\ born s' = born s.
+Proof.
+  induction l as [|[f r] t IH]; intros s s' e H.
+  - simpl in H. inversion H; subst. auto.
+  - simpl in H. destruct (process k s (f, r)) as [s1 e1] eqn:E1. destruct (processes k s1 t) as [s2 e2] eqn:E2.
+    inversion H; subst. destruct (IH _ _ _ E2) as (A & B & C).
+    assert (Hs : fds s1 = fds s /\ holder s1 = holder s /\ born s1 = born s).
+    { destruct (process_cases _ _ _ _ _ _ E1) as [[-> _]|[(o0 & _ & _ & -> & _)|(o0 & _ & -> & _)]]; simpl; auto. }
+    destruct Hs as (A1 & B1 & C1). repeat split; congruence.
+Qed.
+Transparent process.
+
+Lemma tick_world : forall k s st order s' e, tick k s st order = (s', e) ->
+  fds s' = fds s /\ holder s' = holder s /\ born s' = born s.
+Proof.
+  intros k s st order s' e H. destruct k; simpl in H; try (eapply processes_world; exact H).
+  unfold select_tick in H. destruct (existsb (closed s) (rd s) || existsb (closed s) (wr s)); inversion H; subst; simpl; auto.
+Qed.
+
+Lemma step_world : forall k s x s' e, step k s x = Ok s' e -> world_after x s s'.
+Proof.
+  intros k s x s' e H.
+  assert (Hapi : forall s1 o1, fds s1 = fds s -> holder s1 = holder s -> born s1 = born s -> lift (api k s1 o1) = Ok s' e ->
+                 fds s' = fds s /\ holder s' = holder s /\ born s' = born s).
+  { intros s1 o1 E1 E2 E3 Hl. apply lift_ok in Hl. destruct Hl as [Hl _].
+    destruct (api_shape _ _ _ _ Hl) as (A & B & C & _). rewrite A, B, C. auto. }
+  destruct x; simpl in H; simpl.
+  - destruct (born s o); [discriminate|]. destruct (holder s f); [discriminate|]. inversion H; subst. simpl. auto.
+  - destruct (fds s o) as [f|] eqn:Ef; [|discriminate]. inversion H; subst. simpl. exists f. auto.
+  - destruct (born s o); [|discriminate]. eapply Hapi; [| | |exact H]; reflexivity.
+  - destruct (born s o); [|discriminate]. eapply Hapi; [| | |exact H]; reflexivity.
+  - destruct (born s o); [|discriminate].
+    destruct (rd_drop_target (set_rd s (remove1 o (rd s))) o) as (_ & _ & A & B & C & _).
+    eapply Hapi; [| | |exact H]; unfold b_remR; [rewrite A | rewrite B | rewrite C]; reflexivity.
+  - destruct (born s o); [|discriminate].
+    destruct (rd_drop_target (set_wr s (remove1 o (wr s))) o) as (_ & _ & A & B & C & _).
+    eapply Hapi; [| | |exact H]; unfold b_remW; [rewrite A | rewrite B | rewrite C]; reflexivity.
+  - destruct (born s o); [|discriminate]. eapply Hapi; [| | |exact H]; reflexivity.
+  - destruct (tick k s st order) as [s1 e1] eqn:Et. inversion H; subst. eapply tick_world. exact Et.
+Qed.
+
+Definition wfeq (s1 s2 : state) : Prop :=
+  (forall o, fds s1 o = fds s2 o) /\ (forall f, holder s1 f = holder s2 f) /\ (forall o, born s1 o = born s2 o).
+
+Lemma wfeq_step : forall x s1 s1' s2 s2', wfeq s1 s2 -> world_after x s1 s1' -> world_after x s2 s2' -> wfeq s1' s2'.
+Proof.
+  intros x s1 s1' s2 s2' (F & H & B) W1 W2.
+  assert (Hsame : (fds s1' = fds s1 /\ holder s1' = holder s1 /\ born s1' = born s1) ->
+                  (fds s2' = fds s2 /\ holder s2' = holder s2 /\ born s2' = born s2) -> wfeq s1' s2').
+  { intros (A1 & A2 & A3) (B1 & B2 & B3). unfold wfeq. rewrite A1, A2, A3, B1, B2, B3. auto. }
+  destruct x; simpl in W1, W2; try (apply Hsame; assumption).
+  - destruct W1 as (A1 & A2 & A3). destruct W2 as (B1 & B2 & B3). unfold wfeq. rewrite A1, A2, A3, B1, B2, B3.
+    repeat split; intros j; unfold upd; match goal with |- context[Nat.eqb j ?q] => destruct (Nat.eqb j q) end; auto.
+  - destruct W1 as (f1 & E1 & A1 & A2 & A3). destruct W2 as (f2 & E2 & B1 & B2 & B3).
+    assert (f1 = f2) by (rewrite F in E1; congruence). subst f2.
+    unfold wfeq. rewrite A1, A2, A3, B1, B2, B3.
+    repeat split; intros j; unfold upd; try match goal with |- context[Nat.eqb j ?q] => destruct (Nat.eqb j q) end; auto.
+Qed.
+
+(* what one reported descriptor does to the registrations: nothing, or the object is dropped and told so *)
+Lemma process_keep : forall k s fr s' e, Inv k s -> process k s fr = (s', e) ->
+  forall o, ((In o (rd s') <-> In o (rd s)) /\ (In o (wr s') <-> In o (wr s)) /\ tg s' o = tg s o) \/
+            (~ registered s' o /\ exists c, In (EDisc o c) e).
+Proof.
+  intros k s [f r] s' e (HW & _) H o.
+  destruct (process_cases _ _ _ _ _ _ H) as [[-> _]|[(o0 & _ & _ & -> & _)|(o0 & _ & -> & ->)]].
+  - left. tauto.
+  - left. simpl. tauto.
+  - destruct (Nat.eq_dec o o0) as [->|Hn].
+    + right. split.
+      * unfold registered. simpl. intros [Hi|Hi].
+        -- apply (NoDup_remove1 o0 _ (w_nd_r _ HW)) in Hi. exact Hi.
+        -- apply (NoDup_remove1 o0 _ (w_nd_w _ HW)) in Hi. exact Hi.
+      * eexists. left. reflexivity.
+    + left. simpl. repeat split; try apply In_remove1; try (apply In_remove1_neq; assumption).
+      apply upd_other. exact Hn.
+Qed.
+
+Opaque process.
+Lemma processes_keep : forall k l s s' e, k <> KSelect -> Inv k s -> processes k s l = (s', e) ->
+  forall o, ((In o (rd s') <-> In o (rd s)) /\ (In o (wr s') <-> In o (wr s)) /\ tg s' o = tg s o) \/
+            (~ registered s' o /\ exists c, In (EDisc o c) e).
+Proof.
+  induction l as [|fr t IH]; intros s s' e Hk HI H o.
+  - simpl in H. inversion H; subst. left. tauto.
+  - simpl in H. destruct (process k s fr) as [s1 e1] eqn:E1. destruct (processes k s1 t) as [s2 e2] eqn:E2.
+    inversion H; subst.
+    assert (HI1 : Inv k s1) by (eapply Inv_process; eassumption).
+    destruct (IH _ _ _ Hk HI1 E2 o) as [(A & B & C)|(Hn & c & Hc)].
+    + destruct (process_keep _ _ _ _ _ HI E1 o) as [(A1 & B1 & C1)|(Hn1 & c & Hc)].
+      * left. rewrite A, B, C. auto.
+      * right. split; [|exists c; apply in_app_iff; left; exact Hc].
+        unfold registered in *. rewrite A, B. exact Hn1.
+    + right. split; [exact Hn | exists c; apply in_app_iff; right; exact Hc].
+Qed.
+Transparent process.
+
+(* completeness of _disconnect: a registered open descriptor in hang-up-only state is told so *)
+Lemma poll_disc_complete : forall k s st order o f, k <> KSelect -> Inv k s -> order_ok s order ->
+  registered s o -> fds s o = Some f -> hang_only s st o f = true ->
+  In (EDisc o (target s o)) (snd (tick k s st order)).
+Proof.
+  intros k s st order o f Hk HI [Hnd Hcov] Hr Hfd Hh. rewrite tick_poll by exact Hk.
+  rewrite processes_events; [| exact Hk | exact HI | apply scan_nodup; exact Hnd].
+  pose proof HI as (HW & HM & HE). destruct (HM Hk) as [Mb Mm Me].
+  destruct (Mm o f Hfd Hr) as [Hp Hkr].
+  assert (Hho : holder s f = Some o) by (apply (w_inj _ HW); exact Hfd).
+  set (r := {| r_in := mem o (rd s) && pin (st f); r_out := mem o (wr s) && pout (st f);
+               r_hup := phup (st f); r_err := perr (st f); r_nval := false |}).
+  unfold hang_only in Hh. apply andb_true_iff in Hh. destruct Hh as [Hhe Hni].
+  exists (f, r). split.
+  - unfold scan. apply in_flat_map. exists f. split; [apply Hcov; congruence|].
+    unfold scan1. rewrite Hkr. unfold mask. rewrite Hho. fold r.
+    assert (Hnz : r_in r || r_out r || r_hup r || r_err r = true).
+    { simpl. apply orb_true_iff in Hhe. destruct Hhe as [E|E]; rewrite E; rewrite ?orb_true_r; reflexivity. }
+    rewrite Hnz. left. reflexivity.
+  - unfold process. rewrite Hp.
+    assert (Hst : match k with KPoll => match fds s o with Some f' => negb (Nat.eqb f' f) | None => true end | _ => false end = false).
+    { rewrite Hfd. destruct k; try reflexivity. rewrite Nat.eqb_refl. reflexivity. }
+    rewrite Hst.
+    assert (Hhg : (r_hup r || r_err r || is_poll k && r_nval r) && negb (r_in r) = true).
+    { simpl. rewrite andb_false_r, orb_false_r, Hhe. simpl. exact Hni. }
+    rewrite Hhg. simpl. left. reflexivity.
+Qed.
+
+Lemma allopen_clean : forall s, (forall o, registered s o -> fds s o <> None) -> clean s.
+Proof.
+  intros s H. unfold clean. apply orb_false_iff. split; apply not_true_is_false; intro E;
+    apply existsb_exists in E; destruct E as (o & Hi & Hc); unfold closed in Hc;
+    destruct (fds s o) eqn:Ef; try discriminate; [apply (H o (or_introl Hi)) | apply (H o (or_intror Hi))]; exact Ef.
+Qed.
+
+Lemma select_tick_clean : forall s st, clean s -> fst (select_tick s st) = s.
+Proof. intros s st H. unfold select_tick, clean in *. rewrite H. reflexivity. Qed.
+
+Lemma add_open : forall k s c o s' e, k <> KSelect ->
+  (step k s (AddR c o) = Ok s' e \/ step k s (AddW c o) = Ok s' e) -> fds s o <> None.
+Proof.
+  intros k s c o s' e Hk H Hf.
+  assert (Hgen : forall s1, fds s1 o = None -> registered s1 o -> api k s1 o = Some s' -> False).
+  { intros s1 E Hr Ha. assert (Hu : update_reg k s1 o = Some s') by (destruct k; [congruence | exact Ha | exact Ha]).
+    pose proof (update_reg_tables _ _ _ _ Hu) as Ht. rewrite E in Ht. destruct Ht as (Hn & _). contradiction. }
+  destruct H as [H|H]; simpl in H; destruct (born s o); try discriminate; apply lift_ok in H; destruct H as [H _].
+  - eapply Hgen; [| |exact H]; [exact Hf | left; simpl; apply in_app_iff; right; left; reflexivity].
+  - eapply Hgen; [| |exact H]; [exact Hf | right; simpl; apply in_app_iff; right; left; reflexivity].
+Qed.
+
+(* the relation between Select (s1) and Poll / EPoll (s2) after the same history: same descriptor table;
+   Poll/EPoll's registrations are a subset of Select's; on that subset roles and targets coincide.
+   The difference ([dropped]) consists of descriptors that Poll/EPoll have hung up on. *)
+Record Rel (s1 s2 : state) : Prop := {
+  r_world : wfeq s1 s2;
+  r_sub_r : forall o, In o (rd s2) -> In o (rd s1);
+  r_sub_w : forall o, In o (wr s2) -> In o (wr s1);
+  r_same : forall o, registered s2 o ->
+           (In o (rd s1) -> In o (rd s2)) /\ (In o (wr s1) -> In o (wr s2)) /\ tg s1 o = tg s2 o;
+  r_open : forall o, registered s1 o -> fds s1 o <> None
+}.
+
+Definition dropped (s1 s2 : state) (o : nat) : Prop := registered s1 o /\ ~ registered s2 o.
+Definition consistent (x : status) : Prop := sr x = pin x /\ sw x = pout x.
+
+(* joint precondition of a step applied to the three pollers: the API precondition for each; a descriptor that
+   Poll/EPoll have hung up on is discarded before it is registered again; descriptors are discarded before they
+   are closed; select and poll see the same readable / writable bits *)
+Definition joint_pre (s1 s2 : state) (x : op) : Prop :=
+  pre s1 x /\ pre s2 x /\
+  match x with
+  | AddR _ o | AddW _ o => ~ dropped s1 s2 o
+  | Close o => ~ registered s1 o
+  | Tick st _ => forall f, consistent (st f)
+  | _ => True
+  end.
+
+Lemma registered_dec : forall s o, registered s o \/ ~ registered s o.
+Proof.
+  intros s o. destruct (fst (mask s o) || snd (mask s o)) eqn:E.
+  - left. apply registered_mask. exact E.
+  - right. intro Hr. apply registered_mask in Hr. congruence.
+Qed.
+
+Lemma Rel_step : forall k s1 s2 x s1' e1 s2' e2, k <> KSelect ->
+  Rel s1 s2 -> Inv KSelect s1 -> Inv k s2 -> joint_pre s1 s2 x ->
+  step KSelect s1 x = Ok s1' e1 -> step k s2 x = Ok s2' e2 -> Rel s1' s2'.
+Proof.
+  intros k s1 s2 x s1' e1 s2' e2 Hk [Rw Rr Rwr Rs Ro] HI1 HI2 (Hp1 & Hp2 & Hj) H1 H2.
+  pose proof (step_world _ _ _ _ _ H1) as W1. pose proof (step_world _ _ _ _ _ H2) as W2.
+  pose proof (wfeq_step _ _ _ _ _ Rw W1 W2) as Rw'.
+  pose proof (step_lists _ _ _ _ _ H1) as L1. pose proof (step_lists _ _ _ _ _ H2) as L2.
+  pose proof (step_target _ _ _ _ _ H1) as T1. pose proof (step_target _ _ _ _ _ H2) as T2.
+  destruct HI1 as ([_ _ _ N1r N1w _] & _). pose proof HI2 as ([_ _ _ N2r N2w _] & _).
+  destruct x.
+  - (* Open *) destruct L1 as [A1 B1]. destruct L2 as [A2 B2]. simpl in W1. destruct W1 as (F1 & _).
+    split; try exact Rw'; unfold registered; rewrite ?A1, ?B1, ?A2, ?B2, ?T1, ?T2; try assumption.
+    intros o' Hr. rewrite F1. unfold upd. destruct (Nat.eqb o' o); [discriminate | apply Ro; exact Hr].
+  - (* Close *) destruct L1 as [A1 B1]. destruct L2 as [A2 B2]. simpl in W1. destruct W1 as (f & _ & F1 & _).
+    split; try exact Rw'; unfold registered; rewrite ?A1, ?B1, ?A2, ?B2, ?T1, ?T2; try assumption.
+    intros o' Hr. rewrite F1. unfold upd. destruct (Nat.eqb_spec o' o); [subst; contradiction | apply Ro; exact Hr].
+  - (* AddR *) destruct L1 as [A1 B1]. destruct L2 as [A2 B2]. destruct T1 as [T1a T1b]. destruct T2 as [T2a T2b].
+    simpl in W1. destruct W1 as (F1 & _).
+    assert (Hopen : fds s1 o <> None).
+    { destruct Rw as (F & _). rewrite F. eapply (add_open k s2 c o); [exact Hk | left; exact H2]. }
+    split; try exact Rw'; unfold registered; rewrite ?A1, ?B1, ?A2, ?B2.
+    + intros o'. rewrite !in_app_iff. intros [Hi|Hi]; [left; apply Rr; exact Hi | right; exact Hi].
+    + exact Rwr.
+    + intros o' Hr. destruct (Nat.eq_dec o' o) as [->|Hn].
+      * split; [intros _; apply in_app_iff; right; left; reflexivity|]. split; [|congruence].
+        intros Hw. destruct (registered_dec s2 o) as [Hr2|Hr2].
+        -- apply (Rs o Hr2). exact Hw.
+        -- exfalso. apply Hj. split; [right; exact Hw | exact Hr2].
+      * assert (Hr2 : registered s2 o').
+        { destruct Hr as [Hi|Hi]; [apply in_app_iff in Hi; destruct Hi as [Hi|[Hi|[]]]; [left; exact Hi | congruence] | right; exact Hi]. }
+        destruct (Rs o' Hr2) as (Sa & Sb & Sc). split; [|split].
+        -- rewrite !in_app_iff. intros [Hi|[Hi|[]]]; [left; apply Sa; exact Hi | congruence].
+        -- exact Sb.
+        -- rewrite T1b, T2b by exact Hn. exact Sc.
+    + intros o' Hr. rewrite F1. destruct (Nat.eq_dec o' o) as [->|Hn]; [exact Hopen|].
+      apply Ro. destruct Hr as [Hi|Hi]; [apply in_app_iff in Hi; destruct Hi as [Hi|[Hi|[]]]; [left; exact Hi | congruence] | right; exact Hi].
+  - (* AddW *) destruct L1 as [A1 B1]. destruct L2 as [A2 B2]. destruct T1 as [T1a T1b]. destruct T2 as [T2a T2b].
+    simpl in W1. destruct W1 as (F1 & _).
+    assert (Hopen : fds s1 o <> None).
+    { destruct Rw as (F & _). rewrite F. eapply (add_open k s2 c o); [exact Hk | right; exact H2]. }
+    split; try exact Rw'; unfold registered; rewrite ?A1, ?B1, ?A2, ?B2.
+    + exact Rr.
+    + intros o'. rewrite !in_app_iff. intros [Hi|Hi]; [left; apply Rwr; exact Hi | right; exact Hi].
+    + intros o' Hr. destruct (Nat.eq_dec o' o) as [->|Hn].
+      * split; [|split; [intros _; apply in_app_iff; right; left; reflexivity | congruence]].
+        intros Hw. destruct (registered_dec s2 o) as [Hr2|Hr2].
+        -- apply (Rs o Hr2). exact Hw.
+        -- exfalso. apply Hj. split; [left; exact Hw | exact Hr2].
+      * assert (Hr2 : registered s2 o').
+        { destruct Hr as [Hi|Hi]; [left; exact Hi | apply in_app_iff in Hi; destruct Hi as [Hi|[Hi|[]]]; [right; exact Hi | congruence]]. }
+        destruct (Rs o' Hr2) as (Sa & Sb & Sc). split; [|split].
+        -- exact Sa.
+        -- rewrite !in_app_iff. intros [Hi|[Hi|[]]]; [left; apply Sb; exact Hi | congruence].
+        -- rewrite T1b, T2b by exact Hn. exact Sc.
+    + intros o' Hr. rewrite F1. destruct (Nat.eq_dec o' o) as [->|Hn]; [exact Hopen|].
+      apply Ro. destruct Hr as [Hi|Hi]; [left; exact Hi | apply in_app_iff in Hi; destruct Hi as [Hi|[Hi|[]]]; [right; exact Hi | congruence]].
+  - (* RemR *) destruct L1 as [A1 B1]. destruct L2 as [A2 B2]. destruct T1 as [T1a T1b]. destruct T2 as [T2a T2b].
+    simpl in W1. destruct W1 as (F1 & _).
+    destruct (NoDup_remove1 o _ N1r) as [_ X1]. destruct (NoDup_remove1 o _ N2r) as [_ X2].
+    split; try exact Rw'; unfold registered; rewrite ?A1, ?B1, ?A2, ?B2.
+    + intros o' Hi. destruct (Nat.eq_dec o' o) as [->|Hn]; [contradiction|].
+      apply In_remove1_neq; [exact Hn | apply Rr; eapply In_remove1; exact Hi].
+    + exact Rwr.
+    + intros o' Hr. destruct (Nat.eq_dec o' o) as [->|Hn].
+      * destruct Hr as [Hi|Hi]; [contradiction|].
+        destruct (Rs o (or_intror Hi)) as (_ & Sb & Sc).
+        split; [intros Hx; contradiction|]. split; [exact Sb|].
+        rewrite (T1a (Rwr _ Hi)), (T2a Hi). exact Sc.
+      * assert (Hr2 : registered s2 o') by (destruct Hr as [Hi|Hi]; [left; eapply In_remove1; exact Hi | right; exact Hi]).
+        destruct (Rs o' Hr2) as (Sa & Sb & Sc). split; [|split].
+        -- intros Hi. apply In_remove1_neq; [exact Hn | apply Sa; eapply In_remove1; exact Hi].
+        -- exact Sb.
+        -- rewrite T1b, T2b by exact Hn. exact Sc.
+    + intros o' Hr. rewrite F1. apply Ro. destruct Hr as [Hi|Hi]; [left; eapply In_remove1; exact Hi | right; exact Hi].
+  - (* RemW *) destruct L1 as [A1 B1]. destruct L2 as [A2 B2]. destruct T1 as [T1a T1b]. destruct T2 as [T2a T2b].
+    simpl in W1. destruct W1 as (F1 & _).
+    destruct (NoDup_remove1 o _ N1w) as [_ X1]. destruct (NoDup_remove1 o _ N2w) as [_ X2].
+    split; try exact Rw'; unfold registered; rewrite ?A1, ?B1, ?A2, ?B2.
+    + exact Rr.
+    + intros o' Hi. destruct (Nat.eq_dec o' o) as [->|Hn]; [contradiction|].
+      apply In_remove1_neq; [exact Hn | apply Rwr; eapply In_remove1; exact Hi].
+    + intros o' Hr. destruct (Nat.eq_dec o' o) as [->|Hn].
+      * destruct Hr as [Hi|Hi]; [|contradiction].
+        destruct (Rs o (or_introl Hi)) as (Sa & _ & Sc).
+        split; [exact Sa|]. split; [intros Hx; contradiction|].
+        rewrite (T1a (Rr _ Hi)), (T2a Hi). exact Sc.
+      * assert (Hr2 : registered s2 o') by (destruct Hr as [Hi|Hi]; [left; exact Hi | right; eapply In_remove1; exact Hi]).
+        destruct (Rs o' Hr2) as (Sa & Sb & Sc). split; [|split].
+        -- exact Sa.
+        -- intros Hi. apply In_remove1_neq; [exact Hn | apply Sb; eapply In_remove1; exact Hi].
+        -- rewrite T1b, T2b by exact Hn. exact Sc.
+    + intros o' Hr. rewrite F1. apply Ro. destruct Hr as [Hi|Hi]; [left; exact Hi | right; eapply In_remove1; exact Hi].
+  - (* Discard *) destruct L1 as [A1 B1]. destruct L2 as [A2 B2].
+    simpl in W1. destruct W1 as (F1 & _).
+    destruct (NoDup_remove1 o _ N1r) as [_ X1]. destruct (NoDup_remove1 o _ N2r) as [_ X2].
+    destruct (NoDup_remove1 o _ N1w) as [_ Y1]. destruct (NoDup_remove1 o _ N2w) as [_ Y2].
+    split; try exact Rw'; unfold registered; rewrite ?A1, ?B1, ?A2, ?B2.
+    + intros o' Hi. destruct (Nat.eq_dec o' o) as [->|Hn]; [contradiction|].
+      apply In_remove1_neq; [exact Hn | apply Rr; eapply In_remove1; exact Hi].
+    + intros o' Hi. destruct (Nat.eq_dec o' o) as [->|Hn]; [contradiction|].
+      apply In_remove1_neq; [exact Hn | apply Rwr; eapply In_remove1; exact Hi].
+    + intros o' Hr. destruct (Nat.eq_dec o' o) as [->|Hn]; [destruct Hr; contradiction|].
+      assert (Hr2 : registered s2 o') by (destruct Hr as [Hi|Hi]; [left | right]; eapply In_remove1; exact Hi).
+      destruct (Rs o' Hr2) as (Sa & Sb & Sc). split; [|split].
+      * intros Hi. apply In_remove1_neq; [exact Hn | apply Sa; eapply In_remove1; exact Hi].
+      * intros Hi. apply In_remove1_neq; [exact Hn | apply Sb; eapply In_remove1; exact Hi].
+      * rewrite T1, T2 by exact Hn. exact Sc.
+    + intros o' Hr. rewrite F1. apply Ro. destruct Hr as [Hi|Hi]; [left | right]; eapply In_remove1; exact Hi.
+  - (* Tick *) simpl in H1, H2.
+    assert (Hcl : clean s1) by (apply allopen_clean; exact Ro).
+    assert (s1' = s1) as ->.
+    { rewrite <- (select_tick_clean s1 st Hcl). destruct (select_tick s1 st). inversion H1; reflexivity. }
+    destruct (tick k s2 st order) as [s2x e2x] eqn:Et. inversion H2; subst.
+    destruct (tick_sub _ _ _ _ _ _ Et) as (Sr & Sw & _).
+    assert (Hkeep := fun o => processes_keep k (scan s2 st order) s2 s2' e2 Hk HI2 (eq_trans (eq_sym (tick_poll k s2 st order Hk)) Et) o).
+    split; try exact Rw'.
+    + intros o Hi. apply Rr. apply Sr. exact Hi.
+    + intros o Hi. apply Rwr. apply Sw. exact Hi.
+    + intros o Hr. destruct (Hkeep o) as [(A & B & C)|(Hn & _)]; [|contradiction].
+      assert (Hr2 : registered s2 o) by (destruct Hr as [Hi|Hi]; [left; apply Sr | right; apply Sw]; exact Hi).
+      destruct (Rs o Hr2) as (Sa & Sb & Sc). rewrite A, B, C. auto.
+    + exact Ro.
+Qed.
+
+Inductive joint (k : kind) : list op -> state -> state -> Prop :=
+| joint_nil : joint k [] init init
+| joint_snoc : forall h s1 s2 x s1' e1 s2' e2, joint k h s1 s2 -> joint_pre s1 s2 x ->
+    step KSelect s1 x = Ok s1' e1 -> step k s2 x = Ok s2' e2 -> joint k (h ++ [x]) s1' s2'.
+
+Lemma Rel_init : Rel init init.
+Proof.
+  split; simpl; try tauto; try (repeat split; reflexivity); try (intros o [[]|[]]).
+Qed.
+
+Theorem agree_history : forall k h s1 s2, k <> KSelect -> joint k h s1 s2 ->
+  Rel s1 s2 /\ reach KSelect s1 /\ reach k s2.
+Proof.
+  intros k h s1 s2 Hk H. induction H as [|h s1 s2 x s1' e1 s2' e2 _ IH Hj H1 H2].
+  - split; [apply Rel_init | split; apply reach_init].
+  - destruct IH as (HR & R1 & R2). pose proof Hj as (P1 & P2 & _). split; [|split].
+    + eapply Rel_step; try eassumption; apply reach_Inv; assumption.
+    + eapply reach_step; eassumption.
+    + eapply reach_step; eassumption.
+Qed.
+
+Opaque process.
+Lemma processes_disc_gone : forall k l s s' e o c, k <> KSelect -> Inv k s -> processes k s l = (s', e) ->
+  In (EDisc o c) e -> ~ registered s' o.
+Proof.
+  induction l as [|[f r] t IH]; intros s s' e o c Hk HI H Hd.
+  - simpl in H. inversion H; subst. destruct Hd.
+  - simpl in H. destruct (process k s (f, r)) as [sa ea] eqn:Ea. destruct (processes k sa t) as [sb eb] eqn:Eb.
+    inversion H; subst. apply in_app_iff in Hd.
+    assert (HIa : Inv k sa) by (eapply Inv_process; eassumption).
+    destruct Hd as [Hd|Hd]; [|eapply IH; eassumption].
+    destruct (process_cases _ _ _ _ _ _ Ea) as [[-> Hx]|[(o0 & _ & _ & -> & ->)|(o0 & _ & -> & ->)]].
+    + destruct (Hx _ Hd) as (o1 & c1 & [E|E]); discriminate.
+    + destruct Hd.
+    + destruct Hd as [Hd|[]]. inversion Hd; subst.
+      destruct (processes_sub _ _ _ _ _ Eb) as (Sr & Sw & _). destruct HI as (HW & _).
+      intros [Hi|Hi]; [apply Sr in Hi | apply Sw in Hi]; simpl in Hi.
+      * apply (NoDup_remove1 o _ (w_nd_r _ HW)) in Hi. exact Hi.
+      * apply (NoDup_remove1 o _ (w_nd_w _ HW)) in Hi. exact Hi.
+Qed.
+Transparent process.
+
+(* what one iteration emits on both sides of the relation *)
+Theorem agree_events : forall k s1 s2 st order, k <> KSelect ->
+  Rel s1 s2 -> Inv k s2 -> order_ok s2 order -> (forall f, consistent (st f)) ->
+  let e1 := snd (tick KSelect s1 st order) in
+  let e2 := snd (tick k s2 st order) in
+  let s2' := fst (tick k s2 st order) in
+  (forall o c, In (ERead o c) e2 <-> In (ERead o c) e1 /\ registered s2 o) /\
+  (forall o c, In (EWrite o c) e2 <->
+               In (EWrite o c) e1 /\ registered s2 o /\ forall f, fds s2 o = Some f -> hang_only s2 st o f = false) /\
+  (forall o c, In (EDisc o c) e2 <->
+               registered s2 o /\ c = target s2 o /\ exists f, fds s2 o = Some f /\ hang_only s2 st o f = true) /\
+  (forall o c, ~ In (EDisc o c) e1) /\
+  fst (tick KSelect s1 st order) = s1 /\
+  (forall o, registered s2 o -> (~ registered s2' o <-> exists c, In (EDisc o c) e2)).
+Proof.
+  intros k s1 s2 st order Hk [Rw Rr Rwr Rs Ro] HI2 Hord Hcons e1 e2 s2'.
+  destruct Rw as (F & _).
+  assert (Hcl : clean s1) by (apply allopen_clean; exact Ro).
+  assert (Htg : forall o, registered s2 o -> target s1 o = target s2 o).
+  { intros o Hr. unfold target. destruct (Rs o Hr) as (_ & _ & E). rewrite E. reflexivity. }
+  split; [|split; [|split; [|split; [|split]]]].
+  - intros o c. unfold e1, e2. simpl tick at 2. rewrite select_read, (poll_read k s2 st order o c Hk HI2 Hord). split.
+    + intros (Hi & (f & Hf & Hpin) & ->). destruct (Hcons f) as [E _].
+      split; [|left; exact Hi]. split; [exact Hcl|]. split; [apply Rr; exact Hi|].
+      split; [exists f; rewrite F; split; [exact Hf | congruence] | symmetry; apply Htg; left; exact Hi].
+    + intros ((_ & Hi & (f & Hf & Hs) & ->) & Hr). destruct (Hcons f) as [E _].
+      split; [apply (Rs o Hr); exact Hi|]. split; [exists f; rewrite <- F; split; [exact Hf | congruence] | apply Htg; exact Hr].
+  - intros o c. unfold e1, e2. simpl tick at 2. rewrite select_write, (poll_write k s2 st order o c Hk HI2 Hord). split.
+    + intros (Hi & (f & Hf & Hpout & Hh) & ->). destruct (Hcons f) as [_ E].
+      split; [|split; [right; exact Hi | intros f' Hf'; rewrite Hf in Hf'; inversion Hf'; subst; exact Hh]].
+      split; [exact Hcl|]. split; [apply Rwr; exact Hi|].
+      split; [exists f; rewrite F; split; [exact Hf | congruence] | symmetry; apply Htg; right; exact Hi].
+    + intros ((_ & Hi & (f & Hf & Hs) & ->) & Hr & Hh). destruct (Hcons f) as [_ E]. rewrite F in Hf.
+      split; [apply (Rs o Hr); exact Hi|]. split; [|apply Htg; exact Hr].
+      exists f. split; [exact Hf|]. split; [congruence | apply Hh; exact Hf].
+  - intros o c. unfold e2. split.
+    + intros H. apply (poll_disc k s2 st order o c Hk HI2 Hord) in H. destruct H as (Hr & Hc & [Hn|Hx]).
+      * exfalso. apply (Ro o).
+        -- destruct Hr as [Hi|Hi]; [left; apply Rr | right; apply Rwr]; exact Hi.
+        -- rewrite F. exact Hn.
+      * auto.
+    + intros (Hr & -> & f & Hf & Hh). eapply poll_disc_complete; eassumption.
+  - intros o c. unfold e1. simpl. apply select_no_disc.
+  - simpl. apply select_tick_clean. exact Hcl.
+  - intros o Hr. unfold s2', e2.
+    destruct (tick k s2 st order) as [sx ex] eqn:Et. simpl.
+    pose proof (processes_keep k (scan s2 st order) s2 sx ex Hk HI2 (eq_trans (eq_sym (tick_poll k s2 st order Hk)) Et) o) as Hkeep.
+    split.
+    + intros Hn. destruct Hkeep as [(A & B & _)|(_ & Hc)]; [|exact Hc].
+      exfalso. apply Hn. unfold registered in *. rewrite A, B. exact Hr.
+    + intros (c & Hc). eapply processes_disc_gone; [exact Hk | exact HI2 | | exact Hc].
+      rewrite <- tick_poll by exact Hk. exact Et.
+Qed.
+
+(* resynchronisation: once the client discards a descriptor, it is no longer in the difference; nothing else
+   but a _disconnect in an iteration ever enlarges the difference *)
+Theorem dropped_step : forall k s1 s2 x s1' e1 s2' e2 o, k <> KSelect ->
+  Rel s1 s2 -> Inv KSelect s1 -> Inv k s2 -> joint_pre s1 s2 x ->
+  step KSelect s1 x = Ok s1' e1 -> step k s2 x = Ok s2' e2 ->
+  match x with
+  | Discard o' => dropped s1' s2' o <-> dropped s1 s2 o /\ o <> o'
+  | Tick _ _ => dropped s1' s2' o <-> dropped s1 s2 o \/ exists c, In (EDisc o c) e2
+  | _ => dropped s1' s2' o -> dropped s1 s2 o
+  end.
+Proof.
+  intros k s1 s2 x s1' e1 s2' e2 o Hk HR HI1 HI2 Hj H1 H2.
+  pose proof (Rel_step _ _ _ _ _ _ _ _ Hk HR HI1 HI2 Hj H1 H2) as HR'.
+  pose proof (step_lists _ _ _ _ _ H1) as L1. pose proof (step_lists _ _ _ _ _ H2) as L2.
+  destruct HR as [Rw Rr Rwr Rs Ro]. destruct Hj as (_ & P2 & Hj).
+  pose proof HI1 as ([_ _ _ N1r N1w _] & _). pose proof HI2 as ([_ _ _ N2r N2w _] & _).
+  unfold dropped, registered.
+  destruct x; destruct L1 as [A1 B1]; destruct L2 as [A2 B2]; try (rewrite A1, B1, A2, B2; tauto).
+  - (* AddR *) rewrite A1, B1, A2, B2. rewrite !in_app_iff. simpl. intros [Hr Hn].
+    destruct (Nat.eq_dec o o0) as [->|Hne]; [exfalso; apply Hn; left; right; left; reflexivity|].
+    split; [|intro H; apply Hn; destruct H as [H|H]; [left; left; exact H | right; exact H]].
+    destruct Hr as [[H|[H|[]]]|H]; [left; exact H | congruence | right; exact H].
+  - (* AddW *) rewrite A1, B1, A2, B2. rewrite !in_app_iff. simpl. intros [Hr Hn].
+    destruct (Nat.eq_dec o o0) as [->|Hne]; [exfalso; apply Hn; right; right; left; reflexivity|].
+    split; [|intro H; apply Hn; destruct H as [H|H]; [left; exact H | right; left; exact H]].
+    destruct Hr as [H|[H|[H|[]]]]; [left; exact H | right; exact H | congruence].
+  - (* RemR *) rewrite A1, B1, A2, B2. intros [Hr Hn].
+    split; [destruct Hr as [H|H]; [left; eapply In_remove1; exact H | right; exact H]|].
+    intros [H|H]; [|apply Hn; right; exact H].
+    destruct (Nat.eq_dec o o0) as [->|Hne].
+    + destruct Hr as [Hx|Hx]; [apply (NoDup_remove1 o0 _ N1r) in Hx; exact Hx|].
+      apply Hn. right. apply (Rs o0 (or_introl H)). exact Hx.
+    + apply Hn. left. apply In_remove1_neq; assumption.
+  - (* RemW *) rewrite A1, B1, A2, B2. intros [Hr Hn].
+    split; [destruct Hr as [H|H]; [left; exact H | right; eapply In_remove1; exact H]|].
+    intros [H|H]; [apply Hn; left; exact H|].
+    destruct (Nat.eq_dec o o0) as [->|Hne].
+    + destruct Hr as [Hx|Hx]; [|apply (NoDup_remove1 o0 _ N1w) in Hx; exact Hx].
+      apply Hn. left. apply (Rs o0 (or_intror H)). exact Hx.
+    + apply Hn. right. apply In_remove1_neq; assumption.
+  - (* Discard *) rewrite A1, B1, A2, B2. split.
+    + intros [Hr Hn].
+      assert (Hne : o <> o0).
+      { intro; subst. destruct Hr as [Hx|Hx]; [apply (NoDup_remove1 o0 _ N1r) in Hx | apply (NoDup_remove1 o0 _ N1w) in Hx]; exact Hx. }
+      split; [|exact Hne]. split; [destruct Hr as [H|H]; [left | right]; eapply In_remove1; exact H|].
+      intros [H|H]; apply Hn; [left | right]; apply In_remove1_neq; assumption.
+    + intros [[Hr Hn] Hne]. split; [destruct Hr as [H|H]; [left | right]; apply In_remove1_neq; assumption|].
+      intros [H|H]; apply Hn; [left | right]; eapply In_remove1; exact H.
+  - (* Tick *) simpl in H1, H2.
+    assert (Hcl : clean s1) by (apply allopen_clean; exact Ro).
+    assert (s1' = s1) as ->.
+    { rewrite <- (select_tick_clean s1 st Hcl). destruct (select_tick s1 st). inversion H1; reflexivity. }
+    pose proof (agree_events k s1 s2 st order Hk (Build_Rel _ _ Rw Rr Rwr Rs Ro) HI2 P2 Hj) as (_ & _ & Hdisc & _ & _ & Hgone).
+    destruct (tick k s2 st order) as [s2x e2x] eqn:Et. inversion H2; subst. simpl in Hdisc, Hgone.
+    fold (registered s1 o). fold (registered s2' o). fold (registered s2 o).
+    split.
+    + intros [Hr Hn]. destruct (registered_dec s2 o) as [Hr2|Hr2]; [|left; split; assumption].
+      right. apply (Hgone o Hr2). exact Hn.
+    + intros [[Hr Hn]|(c & Hc)].
+      * split; [exact Hr|]. intros Hx. apply Hn. destruct Hx as [Hx|Hx]; [left; apply A2 | right; apply B2]; exact Hx.
+      * pose proof Hc as Hc'. apply Hdisc in Hc'. destruct Hc' as (Hr2 & _).
+        split; [destruct Hr2 as [Hx|Hx]; [left; apply Rr | right; apply Rwr]; exact Hx|].
+        apply (Hgone o Hr2). exists c. exact Hc.
+Qed.
+
+(* when nothing is in the difference the three pollers have the same registrations and targets *)
+Theorem synced_equal : forall k s1 s2, Rel s1 s2 -> Inv KSelect s1 -> Inv k s2 -> (forall o, ~ dropped s1 s2 o) ->
+  (forall o, In o (rd s1) <-> In o (rd s2)) /\ (forall o, In o (wr s1) <-> In o (wr s2)) /\
+  (forall o, tg s1 o = tg s2 o) /\ (forall o, fds s1 o = fds s2 o).
+Proof.
+  intros k s1 s2 [Rw Rr Rwr Rs Ro] (W1 & _) (W2 & _) Hnd.
+  assert (Hreg : forall o, registered s1 o -> registered s2 o).
+  { intros o Hr. destruct (registered_dec s2 o) as [H|H]; [exact H | exfalso; apply (Hnd o); split; assumption]. }
+  split; [|split; [|split]].
+  - intros o. split; [|apply Rr]. intros Hi. apply (Rs o (Hreg o (or_introl Hi))). exact Hi.
+  - intros o. split; [|apply Rwr]. intros Hi. apply (Rs o (Hreg o (or_intror Hi))). exact Hi.
+  - intros o. destruct (registered_dec s2 o) as [H|H]; [apply (Rs o H)|].
+    destruct (tg s1 o) eqn:E1.
+    + exfalso. apply H. apply Hreg. apply (w_tg _ W1). congruence.
+    + destruct (tg s2 o) eqn:E2; [|reflexivity]. exfalso. apply H. apply (w_tg _ W2). congruence.
+  - destruct Rw as (F & _). exact F.
+Qed.
+
+(* composition: the event relation holds for the iteration following any jointly valid history *)
+Theorem agree_history_events : forall k h s1 s2 st order, k <> KSelect -> joint k h s1 s2 ->
+  order_ok s2 order -> (forall f, consistent (st f)) ->
+  let e1 := snd (tick KSelect s1 st order) in
+  let e2 := snd (tick k s2 st order) in
+  let s2' := fst (tick k s2 st order) in
+  (forall o c, In (ERead o c) e2 <-> In (ERead o c) e1 /\ registered s2 o) /\
+  (forall o c, In (EWrite o c) e2 <->
+               In (EWrite o c) e1 /\ registered s2 o /\ forall f, fds s2 o = Some f -> hang_only s2 st o f = false) /\
+  (forall o c, In (EDisc o c) e2 <->
+               registered s2 o /\ c = target s2 o /\ exists f, fds s2 o = Some f /\ hang_only s2 st o f = true) /\
+  (forall o c, ~ In (EDisc o c) e1) /\
+  fst (tick KSelect s1 st order) = s1 /\
+  (forall o, registered s2 o -> (~ registered s2' o <-> exists c, In (EDisc o c) e2)).
+Proof.
+  intros k h s1 s2 st order Hk Hj Hord Hc. destruct (agree_history _ _ _ _ Hk Hj) as (HR & _ & R2).
+  apply agree_events; try assumption. apply reach_Inv. exact R2.
+Qed.
+
+(* readable form of the hang-up difference: everything Poll/EPoll report, Select reports too; what Select reports
+   in addition concerns only descriptors that Poll/EPoll are hanging up on in this very iteration (they emit
+   _disconnect and drop the registration) or have hung up on before (the difference) *)
+Theorem hangup_difference : forall k h s1 s2 st order o c, k <> KSelect -> joint k h s1 s2 ->
+  order_ok s2 order -> (forall f, consistent (st f)) ->
+  let e1 := snd (tick KSelect s1 st order) in
+  let e2 := snd (tick k s2 st order) in
+  let s2' := fst (tick k s2 st order) in
+  (In (ERead o c) e2 -> In (ERead o c) e1) /\ (In (EWrite o c) e2 -> In (EWrite o c) e1) /\
+  (In (ERead o c) e1 -> In (ERead o c) e2 \/ dropped s1 s2 o) /\
+  (In (EWrite o c) e1 -> In (EWrite o c) e2 \/ dropped s1 s2 o \/
+                         ((exists c', In (EDisc o c') e2) /\ ~ registered s2' o)).
+Proof.
+  intros k h s1 s2 st order o c Hk Hj Hord Hc e1 e2 s2'.
+  destruct (agree_history_events k h s1 s2 st order Hk Hj Hord Hc) as (Hr & Hw & Hd & _ & _ & Hg).
+  fold e1 in Hr, Hw. fold e2 in Hr, Hw, Hd, Hg. fold s2' in Hg.
+  assert (Hreg1 : forall x, In x e1 -> registered s1 (ev_obj x)).
+  { intros x Hx. unfold e1 in Hx. simpl in Hx. destruct x as [o1 c1|o1 c1|o1 c1]; simpl.
+    - apply select_read in Hx. left. tauto.
+    - apply select_write in Hx. right. tauto.
+    - exfalso. eapply select_no_disc. exact Hx. }
+  split; [|split; [|split]].
+  - intros H. apply Hr in H. tauto.
+  - intros H. apply Hw in H. tauto.
+  - intros H. destruct (registered_dec s2 o) as [H2|H2].
+    + left. apply Hr. split; assumption.
+    + right. split; [apply (Hreg1 _ H) | exact H2].
+  - intros H. destruct (registered_dec s2 o) as [H2|H2]; [|right; left; split; [apply (Hreg1 _ H) | exact H2]].
+    destruct (fds s2 o) as [f|] eqn:Ef.
+    + destruct (hang_only s2 st o f) eqn:Eh.
+      * right. right.
+        assert (Hx : In (EDisc o (target s2 o)) e2) by (apply Hd; split; [exact H2 | split; [reflexivity | exists f; auto]]).
+        split; [eexists; exact Hx | apply (Hg o H2); eexists; exact Hx].
+      * left. apply Hw. split; [exact H|]. split; [exact H2|]. intros f' Hf'. rewrite Ef in Hf'. injection Hf' as <-. exact Eh.
+    + left. apply Hw. split; [exact H|]. split; [exact H2|]. intros f' Hf'. rewrite Ef in Hf'. discriminate.
+Qed.
+
+Theorem resync : forall k h s1 s2 x s1' e1 s2' e2 o, k <> KSelect -> joint k h s1 s2 -> joint_pre s1 s2 x ->
+  step KSelect s1 x = Ok s1' e1 -> step k s2 x = Ok s2' e2 ->
+  match x with
+  | Discard o' => dropped s1' s2' o <-> dropped s1 s2 o /\ o <> o'
+  | Tick _ _ => dropped s1' s2' o <-> dropped s1 s2 o \/ exists c, In (EDisc o c) e2
+  | _ => dropped s1' s2' o -> dropped s1 s2 o
+  end.
+Proof.
+  intros k h s1 s2 x s1' e1 s2' e2 o Hk Hj Hp H1 H2.
+  destruct (agree_history _ _ _ _ Hk Hj) as (HR & R1 & R2).
+  eapply (dropped_step k s1 s2 x s1' e1 s2' e2 o Hk HR (reach_Inv _ _ R1) (reach_Inv _ _ R2) Hp H1 H2).
+Qed.
+
+Theorem synced_history : forall k h s1 s2, k <> KSelect -> joint k h s1 s2 -> (forall o, ~ dropped s1 s2 o) ->
+  (forall o, In o (rd s1) <-> In o (rd s2)) /\ (forall o, In o (wr s1) <-> In o (wr s2)) /\
+  (forall o, tg s1 o = tg s2 o) /\ (forall o, fds s1 o = fds s2 o).
+Proof.
+  intros k h s1 s2 Hk Hj Hn. destruct (agree_history _ _ _ _ Hk Hj) as (HR & R1 & R2).
+  exact (synced_equal k s1 s2 HR (reach_Inv _ _ R1) (reach_Inv _ _ R2) Hn).
 Qed.
